@@ -122,6 +122,39 @@ def check_program(ctx, prog, want):
                      "a fired rewrite replaced a subexpression by one denoting a different array")
 
 
+def kernel_substitution_stream(ctx):
+    """Sliding-window kernel substitution is a named rewrite of C02: exhaustive small domain of
+    chunkings x windows x reducers (non-idempotent ones included), 1-D and as one axis of a 2-D array."""
+    from harness import gen
+
+    rng = ctx.rng
+    nmax = ctx.scale(7, 9)
+    cases = []
+    for n in range(2, nmax + 1):
+        for cks in gen.compositions(n):
+            for w in range(1, n + 1):
+                cases.append((n, cks, w))
+    if len(cases) > ctx.scale(900, 12000):
+        cases = rng.sample(cases, ctx.scale(900, 12000))
+    for n, cks, w in cases:
+        fn = rng.choice(["sum", "sum", "max", "min"])
+        two_d = rng.random() < 0.3
+        shape = [n, 2] if two_d else [n]
+        chunks = [list(cks), [1, 1]] if two_d else [list(cks)]
+        prog = [{"op": "src", "shape": shape, "chunks": chunks, "mul": 3, "off": 1, "mod": 17, "out": "v1"},
+                {"op": "swv_reduce", "args": ["v1"], "window": w, "axis": 0, "fn": fn, "out": "v2"}]
+        if rng.random() < 0.3:
+            prog.append({"op": "affine", "args": ["v2"], "out": "v3"})
+        want = P.run_np(prog)[prog[-1]["out"]]
+        ctx.count(("swv", fn, len(cks) > 1, w > max(cks), w in cks))
+        for opt in (True, False):
+            f = PC.check_values(ctx, prog, want, opt)
+            if f is not None:
+                ctx.fail(f["sig"] if f["sig"] in KNOWN else "kernel-substitution:" + f["sig"], {"program": prog, **f},
+                         "sliding-window reduction differs from NumPy (kernel substitution)")
+                break
+
+
 def run(ctx, replay=None):
     rng = ctx.rng
     ctx.rule = (
@@ -142,5 +175,6 @@ def run(ctx, replay=None):
         check_program(ctx, prog, want)
         if i < 3:
             ctx.sample({"program": prog})
+    kernel_substitution_stream(ctx)
     rules = sorted({k[1] for k in ctx.distinct if k and k[0] == "rewrite"})
     ctx.extra["rules_fired"] = rules
